@@ -1,4 +1,4 @@
-import Proofs.LiveWireSpec
+import Proofs.LiveWireReach
 import Proofs.LiveWireExample
 /-!
 # C06 (resynchronisation clause) — after any garbage prefix the first complete message that starts with a
@@ -39,6 +39,16 @@ theorem resync_independent (c : Cfg) (hc : AllOn c) (g g' : List Tok) (items : L
   rw [resync c hc g items hwf hex, resync c hc g' items hwf hex, ht]
   simp
 
+/-- if the garbage happens to leave the decoder between messages (mode clean), the continuation may even use the
+    running status the decoder holds: legality is judged against that status -/
+theorem resync_running (c : Cfg) (hc : AllOn c) (g : List Tok) (items : List Item)
+    (hm : (feed c init g).1.mode = .clean)
+    (hwf : wfFrom c.bufSize (feed c init g).1.status items = true) :
+    listen c (g ++ wireToks items) = listen c g ++ delivered (expectedFrom (tickSum g) items) := by
+  unfold listen
+  rw [feed_append, listenFrames_append,
+    listen_from_clean c hc items _ _ _ (reachable_clean c g hm) hwf]
+
 /-! ## non-vacuity: the example sequence of C04 (running status, real-time inside a message, a sysex that exactly
 fills the buffer, cuts inside messages) behind a garbage prefix that leaves the decoder inside an unfinished
 sysex -/
@@ -51,6 +61,11 @@ example : listen exCfg (exGarbage ++ wireToks exItems) =
   resync exCfg ⟨rfl, rfl, rfl⟩ exGarbage exItems (by decide) (by decide)
 /-- the garbage itself delivers nothing here, so the listener sees exactly the messages of `exItems`, 7 ms late -/
 example : listen exCfg exGarbage = [] := by decide
+/-- `resync_running`: garbage ending between messages with running status `0x92`; the sequence starts without status -/
+example : (feed exCfg init [.byte 0x7F, .byte 0x92, .tick 3, .byte 0x01, .byte 0x02]).1.mode = .clean ∧
+    wfFrom exCfg.bufSize (feed exCfg init [.byte 0x7F, .byte 0x92, .tick 3, .byte 0x01, .byte 0x02]).1.status
+      [.chan 0x92 true [([], 0x3C), ([.byte 0xF8], 0x40)], .rt 0xFA, .chan 0x92 true [([.tick 1], 0x3C), ([], 0)]] = true := by
+  decide
 /-- a state that no byte stream reaches (`panicked`, pending byte in clean mode): `resync_any_state` still applies -/
 example : startsExplicit exItems = true ∧
     ({ mode := .clean, status := 0x95, typ := 3, pend := some 9, panicked := true } : St).panicked = true := by decide
